@@ -10,6 +10,7 @@ import (
 	"github.com/tikv/client-go/v2/tikvrpc"
 	"io/ioutil"
 	"k8s.io/client-go/tools/leaderelection/resourcelock"
+	"math"
 	"net/http"
 	"os"
 	"path/filepath"
@@ -162,6 +163,14 @@ func OpenEngine(name string, splitKeys ...[]byte) (*EngineHandle, error) {
 			st, err := tikv.NewTestTiKVStore(rpcClient, pdClient, func(c tikv.Client) tikv.Client { return guard }, nil, 0)
 			if err != nil {
 				return nil, err
+			}
+			// the client loads the cluster's GC safe point on a goroutine of its own; until that has happened once every
+			// read fails with "start timestamp may fall behind safe point". On a starved machine the first request of
+			// a case can get there first: wait for the client to be ready (an artefact of the client, not of the adapter)
+			for t0 := time.Now(); time.Since(t0) < 20*time.Second; time.Sleep(time.Millisecond) {
+				if st.CheckVisibility(math.MaxUint64) == nil {
+					break
+				}
 			}
 			sts = append(sts, st)
 		}
